@@ -755,6 +755,7 @@ def import_library(libfilepointer):
     _UNIT_LIB.base_types = dict()
     _UNIT_LIB.unit_table = dict()
     _UNIT_LIB.prefixes = dict()
+    _UNIT_LIB.expanded = set()  # names of units that were created by applying a prefix
     _UNIT_LIB.help = list()
 
     for prefix, factor in _UNIT_LIB.items('prefixes'):
@@ -929,13 +930,21 @@ def _find_unit(unit, error=False):
                     except Exception:  # maybe is a prefixed unit then
                         base_unit = item[1:].rstrip('_')
 
+                        # a prefix can only be applied to a unit that is not already prefixed,
+                        # e.g., 'dam' is deka-meter, not deci-'am' (atto-meter).
+                        expanded = _UNIT_LIB.expanded
+
                         # check for single letter prefix before unit
-                        if (item[0] in prefixes and base_unit in unit_table):
+                        if (item[0] in prefixes and base_unit in unit_table
+                                and base_unit not in expanded):
                             add_unit(item, prefixes[item[0]] * unit_table[base_unit])
+                            expanded.add(item)
 
                         # check for double letter prefix before unit
-                        elif (item[0:2] in prefixes and item[2:] in unit_table):
+                        elif (item[0:2] in prefixes and item[2:] in unit_table
+                                and item[2:] not in expanded):
                             add_unit(item, prefixes[item[0:2]] * unit_table[item[2:]])
+                            expanded.add(item)
 
                         # no prefixes found, unknown unit
                         else:
